@@ -121,7 +121,7 @@ CHECKS["C11"] = dict(
     exhaustive_part_text="every connected labelled graph on 2-4 nodes x every origin x {vertex, awaiting transaction}: depth-first enumeration of all delivery orders, complete unless the per-(graph,origin) cap was hit (then the evidence says exhaustive=false and counts the capped enumerations)",
     common=dict(shrinktime="20s", env={"GOMEMLIMIT": "3GiB"}),
     quick=dict(shards=14, checks=30, timeout=900, env={"VERIF_C11_CAP": 80}),
-    thorough=dict(shards=16, checks=400, timeout=3400, env={"VERIF_C11_CAP": 2500}),
+    thorough=dict(shards=16, checks=400, timeout=3400, env={"VERIF_C11_CAP": 500}),
     assumptions=_GOSSIP_ASSUME,
 )
 CHECKS["C12"] = dict(
